@@ -534,3 +534,80 @@ MM("swapped-branches-length-test-dropped", "C02.R6", [(F, UA + WM, (WM.replace("
 # compares the index with a term that is not a constant of the code -> undecided, never a violation
 TT("twin-enum-member-through-class-attribute", [(F, XOR_KEYS, XOR_KEYS + '\n\nclass _Index:\n    USERAGENT = BeaconSetting.SETTING_USERAGENT\n\n'),
                                                 (F, "setting.index == BeaconSetting.SETTING_USERAGENT", "setting.index == _Index.USERAGENT")])
+
+# ---- sixth batch (round 5): (a) R2 - the value / key stored for a record is computed in the same iteration (a plainly assigned local of
+# the per-setting loop that is read before its assignment carries what was computed for the previous record); (b) R5 - scenario
+# "a complete record lies at the cursor": every exception-free path of the iteration reaches the yield (end-of-data detection by
+# remaining-byte arithmetic must not cut off a record that is complete with the fixed fields alone)
+SMAP_HEAD = '        settings = OrderedDict()\n        for setting in self.settings_tuple:\n            val = setting.value\n'
+SMAP_HEAD_NOINIT = '        settings = OrderedDict()\n        for setting in self.settings_tuple:\n'
+CONV_BLOCK = '            if parse or pretty:\n' + CONV
+
+
+def _chain(last):
+    return (
+        '            if (parse or pretty) and setting.type == SettingsType.TYPE_SHORT:\n'
+        '                val = u16be(setting.value)\n'
+        '            elif (parse or pretty) and setting.type == SettingsType.TYPE_INT:\n'
+        '                val = u32be(setting.value)\n' + last
+    )
+
+
+# explicit chain closed by an else / exhaustive over the members of SettingsType / pre-initialised before the loop
+TT("twin-value-chain-closed-by-else", [(F, SMAP_HEAD, SMAP_HEAD_NOINIT), (F, CONV_BLOCK, _chain('            else:\n                val = setting.value\n'))])
+TT("twin-value-chain-exhaustive-over-record-types", [(F, SMAP_HEAD, SMAP_HEAD_NOINIT), (F, CONV_BLOCK, _chain(
+    '            elif not (parse or pretty) or setting.type in (SettingsType.TYPE_NONE, SettingsType.TYPE_PTR):\n                val = setting.value\n'))])
+TT("twin-value-chain-short-int-exhausted-then-raw", [(F, SMAP_HEAD, SMAP_HEAD_NOINIT), (F, CONV_BLOCK, _chain(
+    '            elif not (parse or pretty) or setting.type not in (SettingsType.TYPE_SHORT, SettingsType.TYPE_INT):\n                val = setting.value\n'))])
+TT("twin-value-declared-before-loop", [(F, SMAP_HEAD, '        settings = OrderedDict()\n        val = None\n        for setting in self.settings_tuple:\n            val = setting.value\n')])
+TT("twin-key-chain-else-raises", [(F, '            else:\n                key = setting.index\n',
+                                   '            elif index_type == "enum":\n                key = setting.index\n            else:\n'
+                                   '                raise ValueError(index_type)\n')])
+# the raw value is only assigned while conversion is on: with parse=False, pretty=False every entry repeats a previous value
+MM("value-unassigned-when-conversion-off", "C02.R2", [(F, SMAP_HEAD, SMAP_HEAD_NOINIT), (F, CONV_BLOCK, (
+    '            if parse or pretty:\n'
+    '                if setting.type == SettingsType.TYPE_SHORT:\n'
+    '                    val = u16be(setting.value)\n'
+    '                elif setting.type == SettingsType.TYPE_INT:\n'
+    '                    val = u32be(setting.value)\n'
+    '                else:\n'
+    '                    val = setting.value\n'))])
+# the initial value moved under a guard on the length: an empty record keeps the value of the record before it
+MM("value-initialised-only-for-non-empty-records", "C02.R2", [(F, SMAP_HEAD, SMAP_HEAD_NOINIT + '            if setting.length:\n                val = setting.value\n')])
+# pointer records handled in a branch of their own, TYPE_NONE forgotten, on top of the hoisted-aliases shape
+MM("value-chain-misses-type-none-aliased", "C02.R2", _aliased(extra=[(F, SMAP_HEAD, SMAP_HEAD_NOINIT), (F, CONV_BLOCK, _chain(
+    '            elif not (parse or pretty) or setting.type == _TYPE_PTR:\n                val = setting.value\n').replace("SettingsType.TYPE_SHORT", "_TYPE_SHORT"))]))
+# the key is only computed for records with a known index (else the previous key is reused and the entry overwritten)
+MM("key-unassigned-for-unknown-index", "C02.R2", [(F, '            if index_type == "name":\n                key = setting.index.name or str(setting.index).replace(".", "_")\n',
+                                                     '            if index_type == "name":\n                if setting.index.name:\n                    key = setting.index.name\n')])
+
+END_PROLOGUE = (
+    '    start = fobj.tell()\n'
+    '    size = fobj.seek(0, io.SEEK_END)\n'
+    '    fobj.seek(start)\n'
+)
+WHILE = '    while True:\n        peek = fobj.read(2)[:2]\n'
+TERM = '        if peek == b"\\x00\\x00":\n            # end of beacon config\n            break\n'
+
+
+def _eod(before_peek="", after_term="", prologue=END_PROLOGUE):
+    return [(F, WHILE, prologue + '    while True:\n' + before_peek + '        peek = fobj.read(2)[:2]\n'), (F, TERM, TERM + after_term)]
+
+
+# correct remaining-byte arithmetic in several spellings (a record is complete with its 6 fixed bytes)
+TT("twin-eod-remaining-less-than-header", _eod(before_peek='        if size - fobj.tell() < 6:\n            break\n'))
+TT("twin-eod-position-plus-header-beyond-end", _eod(before_peek='        if fobj.tell() + 6 > size:\n            break\n'))
+TT("twin-eod-remaining-temp-after-peek", _eod(after_term='        remaining = size - fobj.tell()\n        if remaining < 4:\n            break\n'))
+TT("twin-eod-position-local", _eod(before_peek='        pos = fobj.tell()\n        if size - pos <= 5:\n            break\n'))
+TT("twin-eod-at-end", _eod(before_peek='        if fobj.tell() >= size:\n            break\n'))
+TT("twin-eod-give-back-by-peek-length", [(F, '            fobj.seek(-2, io.SEEK_CUR)\n', '            fobj.seek(-len(peek), io.SEEK_CUR)\n')])
+TT("twin-eod-short-peek-and-remaining", _eod(after_term='        if len(peek) < 2:\n            break\n        fobj.seek(-len(peek), io.SEEK_CUR)\n'
+                                                        '        if size - fobj.tell() < 6:\n            break\n        fobj.seek(2, io.SEEK_CUR)\n'))
+# wrong header size / test taken at another offset / a record type or an empty value treated as the end of the settings
+MM("eod-header-size-counts-value-bytes", "C02.R5", _eod(before_peek='        if size - fobj.tell() < 8:\n            break\n'))
+MM("eod-remaining-temp-after-peek-off-by-two", "C02.R5", _eod(after_term='        remaining = size - fobj.tell()\n        if remaining <= 4:\n            break\n'))
+MM("eod-position-plus-header-reaches-end", "C02.R5", _eod(before_peek='        if fobj.tell() + 6 >= size:\n            break\n'))
+MM("eod-cond-while-remaining-more-than-header", "C02.R5", [(F, PEEK, END_PROLOGUE + '    while size - fobj.tell() > 6 and fobj.read(2)[:2] != b"\\x00\\x00":\n')])
+MM("empty-record-ends-the-settings", "C02.R5", [(F, UA, '        if setting.length == 0:\n            break\n' + UA)])
+MM("type-none-record-ends-the-settings", "C02.R5", [(F, UA, '        if setting.type == SettingsType.TYPE_NONE:\n            # padding\n            break\n' + UA)])
+MM("unknown-high-index-skipped", "C02.R5", [(F, UA, '        if setting.index > 0x7FFF:\n            continue\n' + UA)])
